@@ -57,7 +57,10 @@ pub enum Act {
 pub const DEFER: u16 = 0x8000;
 pub const POP_ONE: u16 = 0x4000;
 pub const WFAIL: u16 = 0x2000;
-pub const KMASK: u16 = 0x1fff;
+/// the application pops everything, but the stream takes only one byte of the pending output and
+/// the application does not write again before the next read (a response stays partly written)
+pub const WSHORT: u16 = 0x1000;
+pub const KMASK: u16 = 0x0fff;
 
 pub fn enc(a: Act) -> u64 {
     match a {
@@ -110,6 +113,9 @@ pub struct Cfg {
     /// also explore reads after which the first write of the pending output fails (EPIPE): the
     /// output is lost, but reading must go on exactly as the stream dictates
     pub write_faults: bool,
+    /// also explore reads after which the stream accepts a single byte of the pending output and
+    /// the rest stays in the connection until after the next read
+    pub write_shorts: bool,
     /// descriptors handed to the connection get numbers that zigzag around 600 in arrival
     /// order (otherwise: lowest free number, so that a double close hits a recycled number)
     pub zigzag_fds: bool,
@@ -134,6 +140,7 @@ impl Cfg {
             allow_defer: false,
             answer_requests: false,
             write_faults: false,
+            write_shorts: false,
             zigzag_fds: false,
         }
     }
@@ -146,7 +153,7 @@ impl Cfg {
             "empty_reads": self.empty_reads, "eof": self.eof,
             "continue_after_error": self.continue_after_error,
             "max_fds_per_read": self.max_fds_per_read, "max_pending_fds": self.max_pending_fds,
-            "offer_when_queued_le": self.offer_when_queued_le, "judge_errors": self.judge_errors, "robust_only": self.robust_only, "allow_defer": self.allow_defer, "answer_requests": self.answer_requests, "write_faults": self.write_faults, "zigzag_fds": self.zigzag_fds,
+            "offer_when_queued_le": self.offer_when_queued_le, "judge_errors": self.judge_errors, "robust_only": self.robust_only, "allow_defer": self.allow_defer, "answer_requests": self.answer_requests, "write_faults": self.write_faults, "write_shorts": self.write_shorts, "zigzag_fds": self.zigzag_fds,
         })
     }
     pub fn from_json(v: &Value) -> Cfg {
@@ -184,6 +191,7 @@ impl Cfg {
             answer_requests: v["answer_requests"].as_bool().unwrap_or(false),
             write_faults: v["write_faults"].as_bool().unwrap_or(false),
             zigzag_fds: v["zigzag_fds"].as_bool().unwrap_or(false),
+            write_shorts: v["write_shorts"].as_bool().unwrap_or(false),
         }
     }
 }
@@ -326,6 +334,10 @@ pub struct Conn {
     pub ctl: Rc<RefCell<Ctl>>,
     /// answer every popped request with a small 200 response before draining the output
     pub answer: bool,
+    /// offset into the accepted bytes where the next unparsed response starts
+    pub parse_from: usize,
+    /// answers enqueued by earlier reads whose output has not been drained yet
+    pub owed_answers: usize,
 }
 
 pub const ANSWER_BODY: &[u8] = b"ack";
@@ -355,7 +367,7 @@ impl Conn {
         let (s, ctl) = ScriptedStream::new();
         let mut conn = HttpConnection::new(s);
         conn.set_payload_max_size(limit);
-        Conn { conn, ctl, answer: false }
+        Conn { conn, ctl, answer: false, parse_from: 0, owed_answers: 0 }
     }
     pub fn read_cursor(&self) -> usize {
         self.conn.verif_cursor().1
@@ -377,6 +389,8 @@ pub struct ReadObs {
     pub drain_error: Option<String>,
     /// the harness failed the first write of the drain (output is lost by design)
     pub write_failed: bool,
+    /// only one byte of the pending output was written; the rest stays pending
+    pub write_deferred: bool,
 }
 
 /// Performs one `try_read` with the given stream answer, then pops all parsed requests and
@@ -392,6 +406,10 @@ pub fn do_read_opt(c: &mut Conn, ans: ReadAns, settle: bool) -> ReadObs {
 }
 
 pub fn do_read_full(c: &mut Conn, ans: ReadAns, settle: bool, wfail: bool) -> ReadObs {
+    do_read_modes(c, ans, settle, wfail, false)
+}
+
+pub fn do_read_modes(c: &mut Conn, ans: ReadAns, settle: bool, wfail: bool, wshort: bool) -> ReadObs {
     let offered = match &ans {
         ReadAns::Data(b, _) => b.len(),
         _ => 0,
@@ -425,6 +443,7 @@ pub fn do_read_full(c: &mut Conn, ans: ReadAns, settle: bool, wfail: bool) -> Re
             write_calls_per_try_write_max: 0,
             drain_error: None,
             write_failed: false,
+            write_deferred: false,
         };
     }
     loop {
@@ -464,10 +483,54 @@ pub fn do_read_full(c: &mut Conn, ans: ReadAns, settle: bool, wfail: bool) -> Re
             Ok(Err(_)) => {}
         }
         c.ctl.borrow_mut().next_write = None;
+        // whatever was partly written before is now a truncated response on the stream: by
+        // design (C06: pending output is discarded); parsing resumes behind it
+        c.parse_from = c.ctl.borrow().accepted.len();
+        c.owed_answers = 0;
+    }
+    if wshort && !write_failed && util::catch(|| c.conn.pending_write()).unwrap_or(false) {
+        {
+            let mut ctl = c.ctl.borrow_mut();
+            ctl.next_write = Some(crate::stream::WriteAns::Accept(1));
+            ctl.write_default_all = false;
+            ctl.write_calls = 0;
+        }
+        let r = util::catch(|| c.conn.try_write());
+        let w = c.ctl.borrow().write_calls;
+        c.ctl.borrow_mut().next_write = None;
+        if c.answer {
+            c.owed_answers += delivered.len();
+        }
+        let mut derr = None;
+        match r {
+            Err(p) => pop_panic = Some(format!("try_write panicked: {}", p)),
+            Ok(Err(e)) => derr = Some(format!("try_write into a stream that accepted one byte failed: {:?}", e)),
+            Ok(Ok(())) => {}
+        }
+        return ReadObs {
+            result,
+            taken,
+            recv_calls,
+            other_stream_calls: other,
+            delivered,
+            pop_panic,
+            interim: vec![],
+            interim_garbage: None,
+            write_calls_per_try_write_max: w,
+            drain_error: derr,
+            write_failed: false,
+            write_deferred: true,
+        };
     }
     let (interim, interim_garbage, wmax, mut drain_error) = drain_output(c);
     let (interim, answers) = split_answers(interim);
-    if c.answer && !write_failed && answers != delivered.len() && drain_error.is_none() && interim_garbage.is_none() {
+    let owed = std::mem::take(&mut c.owed_answers);
+    if write_failed {
+        // everything pending, including what earlier reads left behind, is gone by design
+    } else if c.answer && answers != delivered.len() + owed && drain_error.is_none() && interim_garbage.is_none() {
+        drain_error = Some(format!("the application answered {} popped requests ({} of them before earlier reads) but {} answers came out of the connection", delivered.len() + owed, owed, answers));
+    }
+    if false && c.answer && !write_failed && answers != delivered.len() && drain_error.is_none() && interim_garbage.is_none() {
         drain_error = Some(format!("the application answered {} popped requests but {} answers came out of the connection", delivered.len(), answers));
     }
     ReadObs {
@@ -482,6 +545,7 @@ pub fn do_read_full(c: &mut Conn, ans: ReadAns, settle: bool, wfail: bool) -> Re
         write_calls_per_try_write_max: wmax,
         drain_error,
         write_failed,
+        write_deferred: false,
     }
 }
 
@@ -526,8 +590,11 @@ pub fn drain_output(c: &mut Conn) -> (Vec<ParsedResponse>, Option<String>, usize
             break;
         }
     }
-    let bytes = c.ctl.borrow().accepted[start..].to_vec();
+    let _ = start;
+    let from = c.parse_from.min(c.ctl.borrow().accepted.len());
+    let bytes = c.ctl.borrow().accepted[from..].to_vec();
     let (rs, used, tail) = read_all(&bytes);
+    c.parse_from = from + used;
     let garbage = match tail {
         Err(m) => Some(m),
         Ok(()) if used != bytes.len() => Some(format!("incomplete response left on the stream: {:?}", show(&bytes[used..]))),
@@ -661,6 +728,14 @@ impl<'a> Exec<'a> {
             self.violation = Some((sig.to_string(), detail));
         }
         self.terminal = true;
+    }
+
+    /// The application changes the connection's payload limit now: it applies to every header
+    /// block that completes from now on (the reference switches at the same stream position).
+    pub fn set_limit(&mut self, limit: usize) {
+        self.c.conn.set_payload_max_size(limit);
+        self.machine.limit = limit;
+        self.obs_log.extend_from_slice(format!("limit {};", limit).as_bytes());
     }
 
     fn make_fds(&mut self, n: u8) -> Vec<RawFd> {
@@ -801,13 +876,15 @@ impl<'a> Exec<'a> {
         let defer = kk & DEFER != 0;
         let pop_one = kk & POP_ONE != 0 && !defer;
         let wfail = kk & WFAIL != 0 && !defer && !pop_one;
+        let wshort = kk & WSHORT != 0 && !defer && !pop_one && !wfail;
         let k = (kk & KMASK) as usize;
-        self.defer_streak = if defer || pop_one { self.defer_streak + 1 } else { 0 };
+        let wshort_flag = kk & WSHORT != 0 && !defer && !pop_one && kk & WFAIL == 0;
+        self.defer_streak = if defer || pop_one || wshort_flag { self.defer_streak + 1 } else { 0 };
         let k = k.min(self.queue.len());
         let arrived = self.queue[..k].to_vec();
         let fds = self.make_fds(f);
         let carry_before = self.machine.partial_line_len();
-        let o = do_read_full(&mut self.c, ReadAns::Data(arrived.clone(), fds.clone()), !(defer || pop_one), wfail);
+        let o = do_read_modes(&mut self.c, ReadAns::Data(arrived.clone(), fds.clone()), !(defer || pop_one), wfail, wshort);
         if o.write_failed {
             self.had_wfail = true;
         }
@@ -862,7 +939,7 @@ impl<'a> Exec<'a> {
         let got: Vec<SpecRequest> = o.delivered.iter().map(view_request).collect();
         if self.tracing {
             self.steps.push(json!({
-                "action": format!("Read(arrived={}, fds={}{})", k, f, if defer { ", application does not pop/write yet" } else if pop_one { ", application pops one request only" } else if wfail { ", the stream fails the next write (EPIPE)" } else { "" }),
+                "action": format!("Read(arrived={}, fds={}{})", k, f, if defer { ", application does not pop/write yet" } else if pop_one { ", application pops one request only" } else if wfail { ", the stream fails the next write (EPIPE)" } else if wshort { ", the stream takes one byte of the output and the application does not write again yet" } else { "" }),
                 "bytes_taken": show(&bytes), "space_offered": space,
                 "try_read": rs,
                 "delivered": got.iter().map(show_req).collect::<Vec<_>>(),
@@ -1089,6 +1166,17 @@ impl<'a> Exec<'a> {
             .iter()
             .map(|v| (if *v == Version::H10 { "HTTP/1.0".to_string() } else { "HTTP/1.1".to_string() }, 100u16, 0usize))
             .collect();
+        if o.write_deferred {
+            // what is due stays due: compared when the output is finally written
+            self.acc_100 = want_100;
+            self.log_delivery(&got, &o, &rs);
+            if want_err.is_some() {
+                self.errored = true;
+                self.terminal = true;
+            }
+            self.keep(o);
+            return;
+        }
         if !o.write_failed && got_100 != want_100s {
             return self.fail(
                 "interim-100",
@@ -1166,7 +1254,7 @@ impl<'a> Exec<'a> {
     pub fn key(&self) -> u128 {
         let d = self.c.conn.verif_digest();
         let t = self.twin.as_ref().map(|t| t.conn.verif_digest()).unwrap_or_default();
-        let flags = [self.terminal as u8, self.errored as u8, self.twin.is_some() as u8, self.pending_fds.len() as u8, self.acc_reqs.len() as u8, self.acc_100.len() as u8, self.acc_fd_lists.len() as u8, self.acc_fd_lists.iter().map(|l| l.len()).sum::<usize>() as u8, self.defer_streak as u8, self.had_wfail as u8];
+        let flags = [self.terminal as u8, self.errored as u8, self.twin.is_some() as u8, self.pending_fds.len() as u8, self.acc_reqs.len() as u8, self.acc_100.len() as u8, self.acc_fd_lists.len() as u8, self.acc_fd_lists.iter().map(|l| l.len()).sum::<usize>() as u8, self.defer_streak as u8, self.had_wfail as u8, self.c.owed_answers as u8];
         let pos = if self.cfg.stream.is_some() { self.stream_pos as u64 } else { 0 };
         util::hash128(&[&d, &t, &self.machine.digest(), if self.cfg.stream.is_some() { &[] } else { &self.queue }, &flags, &pos.to_le_bytes()])
     }
@@ -1226,6 +1314,9 @@ impl<'a> Exec<'a> {
                 if self.cfg.allow_defer && self.defer_streak < 3 && self.acc_reqs.len() < 3 && self.acc_100.len() < 2 {
                     v.push(Act::Read(k as u16 | POP_ONE, f));
                 }
+                if self.cfg.write_shorts && f == 0 && self.defer_streak < 3 && self.acc_100.len() < 2 && self.c.owed_answers < 2 {
+                    v.push(Act::Read(k as u16 | WSHORT, f));
+                }
                 if self.cfg.write_faults && f == 0 && !self.had_wfail {
                     v.push(Act::Read(k as u16 | WFAIL, f));
                 }
@@ -1247,7 +1338,7 @@ impl<'a> Exec<'a> {
     /// the connection, every descriptor handed over is closed exactly once and nothing else is.
     /// The application finally pops and writes what deferred reads left behind.
     fn final_settle(&mut self) {
-        if self.violation.is_some() || (self.acc_reqs.is_empty() && self.acc_100.is_empty() && self.acc_fd_lists.is_empty()) {
+        if self.violation.is_some() || (self.acc_reqs.is_empty() && self.acc_100.is_empty() && self.acc_fd_lists.is_empty() && self.c.owed_answers == 0) {
             return;
         }
         let mut delivered = vec![];
@@ -1264,8 +1355,9 @@ impl<'a> Exec<'a> {
         }
         let (interim, garbage, _, derr) = drain_output(&mut self.c);
         let (interim, answers) = split_answers(interim);
-        if self.cfg.answer_requests && answers != delivered.len() && derr.is_none() && garbage.is_none() {
-            return self.fail("drain", format!("the application answered {} popped requests but {} answers came out of the connection", delivered.len(), answers));
+        let owed = std::mem::take(&mut self.c.owed_answers);
+        if self.cfg.answer_requests && answers != delivered.len() + owed && derr.is_none() && garbage.is_none() {
+            return self.fail("drain", format!("the application answered {} popped requests but {} answers came out of the connection", delivered.len() + owed, answers));
         }
         let got: Vec<SpecRequest> = delivered.iter().map(view_request).collect();
         let want = std::mem::take(&mut self.acc_reqs);
